@@ -349,6 +349,9 @@ def usedKeys (g : Genesis) (ops : List Op) : List String := (stakedLog (initChai
     duplicate-transaction handling) -/
 def UniqueStakeKeys (g : Genesis) (ops : List Op) : Prop := (zeroKey :: usedKeys g ops).Nodup
 
+instance (g : Genesis) (ops : List Op) : Decidable (UniqueStakeKeys g ops) := by
+  unfold UniqueStakeKeys; infer_instance
+
 theorem genesis_dfin_values (g : Genesis) :
     ∀ (k : String) (d : Delegatee), (genesisCore g).dfin[k]? = some d → ∃ v ∈ g.vals, d = genesisDeleg v := by
   simp only [genesisCore]
